@@ -1,8 +1,7 @@
-"""E step for HArgs: run the real validate_args on every configuration of the decision table (one subprocess each: src.args parses
-argv at import)."""
+"""E step for HArgs: run the real argparse parser + validate_args of src/args.py on every configuration of the decision table."""
 import json
 import os
-import subprocess
+import shutil
 import sys
 import tempfile
 
@@ -17,53 +16,57 @@ MSG = {
     "You cannot use -r option with the option --batch": "rerun_with_batch",
     "You cannot use --examine option without the --replay": "examine_needs_replay",
 }
-CODE = "import sys\nfrom src.args import args, validate_args\nvalidate_args(args)\nprint('VALID')\n"
+TRI = {"zero": "0", "pos": "2"}
 
 
-def run(c, tmp):
+def argv_of(c, tmp):
     bugs = os.path.join(tmp, "bugs")
-    os.makedirs(os.path.join(bugs, "taken"), exist_ok=True)
-    sched = os.path.join(tmp, "sched.txt")
-    open(sched, "w").write("TypeErasure\n")
     argv = ["--bugs", bugs, "--name", "taken" if c["name_exists"] else "fresh", "--language", "kotlin"]
     if c["seconds"]:
         argv += ["--seconds", "5"]
     if c["iterations"]:
         argv += ["--iterations", "3"]
     if c["schedule"] == "file":
-        argv += ["--transformation-schedule", sched]
+        argv += ["--transformation-schedule", os.path.join(tmp, "sched.txt")]
     elif c["schedule"] == "missing":
         argv += ["--transformation-schedule", os.path.join(tmp, "no_such_file")]
-    if c["transformations"]:
-        argv += ["--transformations", "1"]
+    if c["transformations"] != "absent":
+        argv += ["--transformations", TRI[c["transformations"]]]
     if c["rerun"]:
         argv += ["--rerun"]
     if c["workers"]:
         argv += ["--workers", "2"]
     if c["keep_all"]:
         argv += ["--keep-all"]
-    if c["batch"]:
-        argv += ["--batch", "2"]
+    if c["batch"] != "absent":
+        argv += ["--batch", TRI[c["batch"]]]
     if c["examine"]:
         argv += ["--examine"]
     if c["replay"]:
         argv += ["--replay", os.path.join(tmp, "x.bin")]
-    p = subprocess.run([sys.executable, "-c", CODE] + argv, stdout=subprocess.PIPE, stderr=subprocess.STDOUT, text=True, cwd=tmp)
-    out = p.stdout
-    if "VALID" in out:
-        return "ok"
-    for k, v in MSG.items():
-        if k in out:
-            return v
-    return "other:" + out.strip()[-120:]
+    return argv
 
 
 def main():
     inp, out = sys.argv[1], sys.argv[2]
     cfgs = json.load(open(inp))
     tmp = tempfile.mkdtemp(prefix="hargs")
-    runs = [{"config": c, "outcome": run(c, tmp)} for c in cfgs]
-    import shutil
+    os.makedirs(os.path.join(tmp, "bugs", "taken"))
+    open(os.path.join(tmp, "sched.txt"), "w").write("TypeErasure\n")
+    sys.argv = ["hephaestus.py", "--bugs", os.path.join(tmp, "bugs"), "--name", "import", "--language", "kotlin"]
+    import src.args as A
+    runs = []
+    for c in cfgs:
+        try:
+            ns = A.parser.parse_args(argv_of(c, tmp))
+            A.validate_args(ns)
+            o = "ok"
+        except SystemExit as e:
+            msg = str(e.code)
+            o = next((v for k, v in MSG.items() if k in msg), "other:" + msg[-120:])
+        except Exception as e:  # noqa: BLE001
+            o = "exception:%s" % type(e).__name__
+        runs.append({"config": c, "outcome": o})
     shutil.rmtree(tmp, ignore_errors=True)
     json.dump({"runs": runs}, open(out, "w"))
     print(json.dumps([out]))
